@@ -629,7 +629,10 @@ func c30RunRace(c c30RaceCase) (res verifkit.Result) {
 	sm := NewStrategyManager()
 	kind := c30StrategyKind(c.Strategy)
 
-	type held struct{ release func() }
+	type held struct {
+		release func()
+		addr    string
+	}
 	var (
 		mu       sync.Mutex
 		firstV   *verifkit.Violation
@@ -680,7 +683,7 @@ func c30RunRace(c c30RaceCase) (res verifkit.Result) {
 					if closeNow {
 						release()
 					} else {
-						heldAll[w] = append(heldAll[w], held{release})
+						heldAll[w] = append(heldAll[w], held{release, a.addr})
 					}
 				}
 			}()
@@ -696,6 +699,7 @@ func c30RunRace(c c30RaceCase) (res verifkit.Result) {
 		}(w)
 	}
 	var midActive uint32
+	midCounters := map[string]uint32{}
 	maxOpen := 0
 	for w := 0; w < c.Workers; w++ {
 		maxOpen += len(c.Script[w])
@@ -720,6 +724,13 @@ func c30RunRace(c c30RaceCase) (res verifkit.Result) {
 		close(start)
 		phase1.Wait()
 		midActive = sm.ActiveConnections()
+		// quiescent point: the least-connections counters must count exactly the
+		// connections that are still open, per backend
+		for _, b := range list {
+			if ctr := sm.getCounter(b); ctr != nil {
+				midCounters[b] = ctr.Load()
+			}
+		}
 		close(phase2go)
 		phase2.Wait()
 		close(stop)
@@ -743,6 +754,17 @@ func c30RunRace(c c30RaceCase) (res verifkit.Result) {
 	}
 	if int(midActive) != wantHeld {
 		return verifkit.Fail("count:active-connections-concurrent", "%d forwarded connections open after the concurrent phase, ActiveConnections()=%d", wantHeld, midActive)
+	}
+	wantPer := map[string]uint32{}
+	for _, hs := range heldAll {
+		for _, h := range hs {
+			wantPer[h.addr]++
+		}
+	}
+	for _, b := range list {
+		if midCounters[b] != wantPer[b] {
+			return verifkit.Fail("count:strategy-counter-concurrent", "after the concurrent phase %d connections to %s are open but its least-connections counter reads %d (counters %v, open %v)", wantPer[b], b, midCounters[b], midCounters, wantPer)
+		}
 	}
 	if got := sm.ActiveConnections(); got != 0 {
 		return verifkit.Fail("count:not-zero-at-end-concurrent", "all connections closed concurrently, ActiveConnections()=%d", got)
